@@ -57,6 +57,10 @@ def with_twins(cases, every=4):
         if n % every == 0:
             tw = [twin_value(a) for a in c['args']]
             if any(x is not None for x in tw):
+                if n % (3 * every) == 0:
+                    # only one argument changes its type: 2.0 looked up among 1, 2, 3 - or 2 among 1.0, 2.0, 3.0
+                    keep = [i for i, x in enumerate(tw) if x is not None][(n // every) % sum(1 for x in tw if x is not None)]
+                    tw = [x if i == keep else None for i, x in enumerate(tw)]
                 twin = dict(c, args=[x if x is not None else a for x, a in zip(tw, c['args'])])
                 out.append([twin, c] if n % (2 * every) == 0 else [c, twin])
                 continue
